@@ -234,6 +234,15 @@ def run_volt(c):
                          bgsrc=None if bgs is None else [float(s.noise_std).hex() for s in bgs],
                          total=[[float(s.get_total_noise_std()).hex() for s in st] for st in streams]))
     out = dict(rows=rows)
+    if c.get("update") and bgs is not None:
+        # the background stream re-estimates its own level from samples and hands it to every antenna stream of its polarisation
+        n = 4000
+        before = [float(b.noise_std) for b in bgs]
+        for b in bgs:
+            b.update_noise(stats_calc_num_samples=n)
+        out["upd"] = dict(n=n, before=before, bgsrc=[float(b.noise_std) for b in bgs],
+                          bg=[[float(s.bg_noise_std) for s in st] for st in streams], own=[[float(s.noise_std) for s in st] for st in streams],
+                          total=[[float(s.get_total_noise_std()) for s in st] for st in streams])
     if c.get("sample"):
         # empirical deviation of the produced voltages against the claimed total (>= 6 sigma band evaluated by the caller)
         n = c["sample"]
